@@ -84,9 +84,10 @@ def garden(args, input=None, timeout=30, cwd=None, env=None):
     if env:
         e.update(env)
     try:
-        p = subprocess.run([GARDEN] + list(args), input=input, cwd=cwd, env=e,
+        kw = {"input": input} if input is not None else {"stdin": subprocess.DEVNULL}
+        p = subprocess.run([GARDEN] + list(args), cwd=cwd, env=e,
                            stdout=subprocess.PIPE, stderr=subprocess.PIPE,
-                           timeout=timeout)
+                           timeout=timeout, **kw)
         return p.returncode, p.stdout.decode("utf-8", "replace"), p.stderr.decode("utf-8", "replace")
     except subprocess.TimeoutExpired as ex:
         out = (ex.stdout or b"").decode("utf-8", "replace")
@@ -106,7 +107,7 @@ def pmap(fn, items, workers=NCPU):
         return list(ex.map(fn, items))
 
 
-def _batch_chunk(mode, recs, timeout_per, env):
+def _batch_chunk(mode, recs, timeout_per, env, cwd=None):
     """Run one verif-batch process over recs; restart after a process-level
     death so that every record gets an answer."""
     results = []
@@ -119,7 +120,7 @@ def _batch_chunk(mode, recs, timeout_per, env):
                 for r in recs[i:]:
                     f.write(json.dumps(r) + "\n")
             rc, out, err = garden(["verif-batch", mode, path],
-                                  timeout=max(20, timeout_per * (len(recs) - i)), env=env)
+                                  timeout=max(20, timeout_per * (len(recs) - i)), env=env, cwd=cwd)
             lines = [l for l in out.split("\n") if l.strip()]
             got = []
             for l in lines:
@@ -131,7 +132,7 @@ def _batch_chunk(mode, recs, timeout_per, env):
             i += len(got)
             if i < len(recs) and (rc != 0 or rc is None or len(got) == 0):
                 # the process died (abort, stack overflow) or hung on record i
-                results.append({"outcome": "died", "rc": rc,
+                results.append({"outcome": "timeout" if rc is None else "died", "rc": rc,
                                 "stderr_tail": err[-300:], "id": recs[i].get("id")})
                 i += 1
         return results
@@ -139,7 +140,7 @@ def _batch_chunk(mode, recs, timeout_per, env):
         shutil.rmtree(d, ignore_errors=True)
 
 
-def batch(mode, recs, timeout_per=2.0, env=None, chunk=None):
+def batch(mode, recs, timeout_per=2.0, env=None, chunk=None, cwd=None):
     """Run records through `garden verif-batch <mode>` in parallel; results are
     returned in input order."""
     recs = list(recs)
@@ -148,7 +149,7 @@ def batch(mode, recs, timeout_per=2.0, env=None, chunk=None):
     if chunk is None:
         chunk = max(1, min(400, (len(recs) + NCPU - 1) // NCPU))
     chunks = [recs[i:i + chunk] for i in range(0, len(recs), chunk)]
-    outs = pmap(lambda c: _batch_chunk(mode, c, timeout_per, env), chunks)
+    outs = pmap(lambda c: _batch_chunk(mode, c, timeout_per, env, cwd), chunks)
     res = [r for o in outs for r in o]
     if len(res) != len(recs):
         raise ToolError(f"verif-batch {mode}: {len(res)} answers for {len(recs)} records")
